@@ -15,6 +15,15 @@ class C05(Property):
         cases = []
         k = 0
         while len(cases) < n:
+            if rng.random() < 0.04:
+                # words split at `--` between a non_strict positional under many/optional/fallback and strict().many():
+                # every word of the line must arrive somewhere (none silently dropped)
+                from .C09 import C09
+                c = C09.split_case(rng, k)
+                c.tags = dict(c.tags, role="allwords", words=[a for a in c.argv if a.startswith(b"W") and a.endswith(b"q")])
+                cases.append(c)
+                k += 1
+                continue
             opts, names = gen.gen_options(rng, features=("alt", "adj", "cmd", "pos", "grp"), allow_catch=False)
             # a group of required members that is optional / defaulted / repeated as a whole, given only in part
             cases.extend(self.partial_groups(rng, opts, k))
@@ -163,6 +172,16 @@ class C05(Property):
                     if compare.impl_class(impl.get(c.id)) == "OK":
                         out.append(Finding("violation", c, "a value was glued onto a flag (%r): nobody can consume it, yet the run "
                                                            "yields a value: %s" % (c.tags["item"], impl.get(c.id)[1][:300]), related=[base]))
+            elif role == "allwords":
+                dist["allwords"] = dist.get("allwords", 0) + 1
+                ic = impl.get(c.id)
+                if compare.impl_class(ic) == "OK":
+                    nontrivial.append(c.line())
+                    lost = [w for w in c.tags["words"] if ic[1].count("(bytes %s)" % gen.hx(w)) != 1]
+                    if lost:
+                        out.append(Finding("violation", c, "the run yields a value in which the word(s) %r of the line do not occur "
+                                                           "exactly once: an item was silently dropped or delivered twice (%s)"
+                                           % (lost, ic[1][:300])))
             elif role == "dup":
                 dist["dup"] += 1
             elif role == "partial":
